@@ -25,6 +25,8 @@ type Scenario struct {
 	Observe func(sys any) string
 	// RaceOnly: no shimmed synchronisation inside (one schedule): only run in the free-running race pass
 	RaceOnly bool
+	// SingleOutcome: the observation is deliberately coarse (one legal outcome); the >= 2 outcomes vacuity floor does not apply
+	SingleOutcome bool
 	// Accept lists outcomes that the sequential reference does not produce but the property allows (rare).
 }
 
